@@ -20,6 +20,7 @@ def Op.target : Op → Nat
   | .merge k .. => k
   | .copy _ j => j
   | .assignMol k .. => k
+  | .setMolMap k .. => k
 
 theorem mkId_inj (rule : String) (a b : Nat) (h : mkId rule a = mkId rule b) : a = b := by
   unfold mkId at h
@@ -571,6 +572,36 @@ theorem assignMol_inv (s : Store) (sp m : String) (h : s.Inv) : (s.assignMol sp 
     · subst h1; exact hsp
   · exact h
 
+theorem setMolMap_fold_keys (species : List String) (mapping : List (String × String)) (base : Dict String)
+    (hb : ∀ sp ∈ base.keys, sp ∈ species) :
+    ∀ sp ∈ (mapping.foldl (fun m kv => if kv.1 ∈ species then m.set kv.1 kv.2 else m) base).keys,
+      sp ∈ species := by
+  induction mapping generalizing base with
+  | nil => simpa using hb
+  | cons kv rest ih =>
+    simp only [List.foldl_cons]
+    apply ih
+    split
+    · rename_i hk
+      intro sp hsp
+      rw [Dict.mem_keys_set] at hsp
+      rcases hsp with h1 | h1
+      · exact hb sp h1
+      · subst h1; exact hk
+    · exact hb
+
+theorem setMolMap_inv (s : Store) (mapping : List (String × String)) (strict clear : Bool) (h : s.Inv) :
+    (s.setMolMap mapping strict clear).1.Inv := by
+  unfold Store.setMolMap
+  split
+  · exact h
+  · obtain ⟨a, b, c, d, e, f, g⟩ := h
+    refine ⟨a, b, c, d, ?_, f, g⟩
+    apply setMolMap_fold_keys
+    split
+    · intro sp hsp; simp [Dict.keys] at hsp
+    · exact e
+
 /-! ### `remove` and `removeSpecies`: invariant with pending orphan checks -/
 
 /-- `Inv` where `species` may additionally contain the species in `P` (whose orphan test is
@@ -1032,6 +1063,12 @@ theorem step_inv (w : World) (op : Op) (h : ∀ s ∈ w, s.Inv) : ∀ s ∈ (ste
     · exact h
     · rename_i s hk
       exact put_inv w k _ h (assignMol_inv s sp m (h s (List.mem_of_getElem? hk)))
+  | setMolMap k mapping strict clear =>
+    simp only
+    split
+    · exact h
+    · rename_i s hk
+      exact put_inv w k _ h (setMolMap_inv s mapping strict clear (h s (List.mem_of_getElem? hk)))
 
 theorem initWorld_inv (n : Nat) : ∀ s ∈ initWorld n, s.Inv := by
   intro s hs
